@@ -1,14 +1,32 @@
 //! C10: the real `CacheLayer` / `SharedCacheLayer` over the scripted inner service.
 //!
-//! header: `cache max=<n> policy=lru|lfu|fifo [ttl=<ticks>] [shared=0|1|2] [tick=us]`   (one tick = 1 ms unless `tick=us`)
-//!   shared=0  one service built by `CacheLayer::layer`; every caller uses a clone of it
-//!   shared=1  `SharedCacheLayer::builder()…build()`, two services from two `layer()` calls
-//!   shared=2  `CacheLayer::builder()…build().shared::<Resp>()`, two services likewise
+//! header: `cache [max=<n>] [policy=lru|lfu|fifo] [ttl=<ticks>] [shared=0|1|2] [nsvc=<n>] [listen=1] [name=<s>]
+//!                [via=builder|new|default] [tick=us]`   (one tick = 1 ms unless `tick=us`)
+//!   max / policy / ttl   absent = the setter is NOT called: the builder's documented default applies (100 / LRU / none).
+//!             `ttl=0` is `Duration::ZERO` (a TTL of zero, not "no TTL")
+//!   shared=0  one layer value built by `CacheLayer::builder()…build()`: every service built from it by `layer()` has
+//!             its OWN store (layer.rs, "State Isolation")
+//!   shared=1  `SharedCacheLayer::builder()…build()`: every service built from the layer value shares ONE store
+//!   shared=2  `CacheLayer::builder()…build().shared::<Resp>()`, likewise one store
+//!   nsvc=<n>  number of services (default 1 for shared=0, 2 otherwise). Service k is built at its first use
+//!             (`arrive … svc=k`, k taken mod n) by `layer.layer(inner)` - or by `layer.clone().layer(inner)` when that
+//!             arrive says `lc=1` (a clone of the layer value taken after other services were built and used)
+//!   listen=1  the builder gets `.on_hit` / `.on_miss` / `.on_eviction` listeners (plain and shared builder alike);
+//!             `probe events` logs how often each has fired. The eviction listener additionally records `@ev=1` on the
+//!             `poll` line during which it fired (the model needs it only when LFU candidates disagree)
+//!   name=<s>  `.name(s)` (reaches only event names / metric labels; nothing observable here)
+//!   via=new | default   the builder value comes from `CacheConfigBuilder::new()` / `Default::default()`
+//!             (`SharedCacheConfigBuilder` likewise) instead of `CacheLayer::builder()`
 //!   tick=us   one clock tick is 1 µs: `ttl=<n>` is n ticks (`world::ticks`), so are `adv n` and `t=`. The cache is
 //!             timed by `std::time::Instant` alone, so TTLs that are not whole milliseconds and lookups at ages between
 //!             two millisecond boundaries are exact. The scripted inner service sleeps on a tokio timer (millisecond
 //!             granularity, `lat` in ms): `tick=us` cases use `inner=0:<out>` and time the completion with the `poll`.
-//! arrive: `arrive <c> key=<k> [svc=0|1] inner=<lat>:<out>`; the key extractor is `|r| r.key`.
+//! arrive: `arrive <c> key=<k> [svc=<k>] [h=<j>] [lc=1] inner=<lat>:<out>`; the key extractor is `|r| r.key`.
+//!   h absent  the call is made on a fresh clone of service k (a clone taken after earlier calls)
+//!   h=0       the call is made on the service value `layer()` returned, itself (the same handle again and again)
+//!   h=<j>     the call is made on handle j of service k: a clone of the service taken at the handle's first use and
+//!             then reused (`h.call(); h.call()`)
+//!   Every handle of a service shares the store of that service (`Cache::clone`).
 //!
 //! The lookup happens inside `call()`, i.e. in the `arrive` operation; the adapter first echoes
 //! the request (`req c key=k svc=i`, no information from the middleware in it) so that the
@@ -18,81 +36,150 @@
 //! (which key was evicted among minimum-count ties is decided by hash-map order and cannot be
 //! observed at eviction time without disturbing the counts).
 use crate::world::*;
-use std::time::Duration;
+use std::collections::BTreeMap;
+use std::sync::atomic::{AtomicU64, Ordering};
+use std::sync::Arc;
 use tower::{Layer, Service};
-use tower_resilience_cache::{Cache, CacheError, CacheLayer, EvictionPolicy, SharedCacheLayer};
+use tower_resilience_cache::{
+    Cache, CacheConfigBuilder, CacheError, CacheLayer, EvictionPolicy, SharedCacheConfigBuilder, SharedCacheLayer,
+};
 
 type Svc = Cache<Inner, Req, u64, Resp>;
 
-pub struct Adapter {
-    svcs: Vec<Svc>,
+enum Lay {
+    Private(CacheLayer<Req, u64>),
+    Shared(SharedCacheLayer<Req, u64, Resp>),
 }
 
-fn policy(kv: &Kv) -> EvictionPolicy {
-    match kv.str("policy", "lru").as_str() {
+#[derive(Default)]
+struct Counts {
+    hit: AtomicU64,
+    miss: AtomicU64,
+    evict: AtomicU64,
+}
+
+pub struct Adapter {
+    layer: Lay,
+    svcs: Vec<Option<Svc>>,
+    handles: BTreeMap<(usize, u64), Svc>,
+    listen: bool,
+    counts: Arc<Counts>,
+}
+
+fn policy_of(s: &str) -> EvictionPolicy {
+    match s {
         "lfu" => EvictionPolicy::Lfu,
         "fifo" => EvictionPolicy::Fifo,
         _ => EvictionPolicy::Lru,
     }
 }
 
+/// the same sequence of setter calls on either builder type
+macro_rules! configure {
+    ($b:expr, $kv:expr, $counts:expr) => {{
+        let mut b = $b.key_extractor(|r: &Req| r.key);
+        if let Some(m) = $kv.opt_u64("max") {
+            b = b.max_size(m as usize);
+        }
+        if let Some(p) = $kv.get("policy") {
+            b = b.eviction_policy(policy_of(p));
+        }
+        if let Some(t) = $kv.opt_u64("ttl") {
+            b = b.ttl(ticks(t));
+        }
+        if let Some(n) = $kv.get("name") {
+            b = b.name(n);
+        }
+        if $kv.u64("listen", 0) == 1 {
+            let (c1, c2, c3) = ($counts.clone(), $counts.clone(), $counts.clone());
+            b = b
+                .on_hit(move || {
+                    c1.hit.fetch_add(1, Ordering::SeqCst);
+                })
+                .on_miss(move || {
+                    c2.miss.fetch_add(1, Ordering::SeqCst);
+                })
+                .on_eviction(move || {
+                    c3.evict.fetch_add(1, Ordering::SeqCst);
+                    obs("ev", 1);
+                });
+        }
+        b
+    }};
+}
+
 impl Adapter {
     pub fn new(kv: &Kv) -> Adapter {
-        let max = kv.u64("max", 1) as usize;
-        let ttl: Option<Duration> = kv.opt_u64("ttl").map(ticks);
-        let svcs = match kv.u64("shared", 0) {
-            0 => {
-                let mut b = CacheLayer::<Req, u64>::builder()
-                    .max_size(max)
-                    .eviction_policy(policy(kv))
-                    .key_extractor(|r: &Req| r.key);
-                if let Some(t) = ttl {
-                    b = b.ttl(t);
-                }
-                vec![b.build().layer(Inner::new())]
-            }
-            1 => {
-                let mut b = SharedCacheLayer::<Req, u64, Resp>::builder()
-                    .max_size(max)
-                    .eviction_policy(policy(kv))
-                    .key_extractor(|r: &Req| r.key);
-                if let Some(t) = ttl {
-                    b = b.ttl(t);
-                }
-                let layer = b.build();
-                vec![layer.layer(Inner::new()), layer.clone().layer(Inner::new())]
-            }
-            _ => {
-                let mut b = CacheLayer::<Req, u64>::builder()
-                    .max_size(max)
-                    .eviction_policy(policy(kv))
-                    .key_extractor(|r: &Req| r.key);
-                if let Some(t) = ttl {
-                    b = b.ttl(t);
-                }
-                let layer = b.build().shared::<Resp>();
-                vec![layer.layer(Inner::new()), layer.layer(Inner::new())]
+        let counts = Arc::new(Counts::default());
+        let via = kv.str("via", "builder");
+        let shared = kv.u64("shared", 0);
+        let layer = if shared == 1 {
+            let b: SharedCacheConfigBuilder<Req, u64, Resp> = match via.as_str() {
+                "new" => SharedCacheConfigBuilder::new(),
+                "default" => Default::default(),
+                _ => SharedCacheLayer::<Req, u64, Resp>::builder(),
+            };
+            Lay::Shared(configure!(b, kv, counts).build())
+        } else {
+            let b: CacheConfigBuilder<Req, u64> = match via.as_str() {
+                "new" => CacheConfigBuilder::new(),
+                "default" => Default::default(),
+                _ => CacheLayer::<Req, u64>::builder(),
+            };
+            let l = configure!(b, kv, counts).build();
+            if shared == 0 {
+                Lay::Private(l)
+            } else {
+                Lay::Shared(l.shared::<Resp>())
             }
         };
-        Adapter { svcs }
+        let nsvc = (kv.u64("nsvc", if shared == 0 { 1 } else { 2 }) as usize).max(1);
+        Adapter { layer, svcs: (0..nsvc).map(|_| None).collect(), handles: BTreeMap::new(), listen: kv.u64("listen", 0) == 1, counts }
+    }
+
+    fn build_svc(&self, from_layer_clone: bool) -> Svc {
+        match (&self.layer, from_layer_clone) {
+            (Lay::Private(l), false) => l.layer(Inner::new()),
+            (Lay::Private(l), true) => l.clone().layer(Inner::new()),
+            (Lay::Shared(l), false) => l.layer(Inner::new()),
+            (Lay::Shared(l), true) => l.clone().layer(Inner::new()),
+        }
     }
 }
 
 pub fn render(r: Result<Resp, CacheError<IErr>>) -> String {
     match r {
         Ok(x) => format!("ok:{}", x.v),
-        Err(CacheError::Inner(e)) => format!("err:inner{}:{}", e.kind, e.v),
+        Err(e) => {
+            let inner = matches!(e, CacheError::Inner(_));
+            let e = e.into_inner();
+            format!("err:{}{}:{}", if inner { "inner" } else { "other" }, e.kind, e.v)
+        }
     }
 }
 
 impl Mw for Adapter {
     fn arrive(&mut self, c: usize, kv: &Kv) -> Option<CallFut> {
         let i = kv.u64("svc", 0);
-        let n = self.svcs.len();
-        let mut svc = self.svcs[(i as usize) % n].clone();
+        let k = (i as usize) % self.svcs.len();
+        if self.svcs[k].is_none() {
+            self.svcs[k] = Some(self.build_svc(kv.u64("lc", 0) == 1));
+        }
+        let mut fresh;
+        let svc: &mut Svc = match kv.opt_u64("h") {
+            None => {
+                fresh = self.svcs[k].as_ref().unwrap().clone();
+                &mut fresh
+            }
+            Some(0) => self.svcs[k].as_mut().unwrap(),
+            Some(j) => {
+                let base = self.svcs[k].as_ref().unwrap();
+                self.handles.entry((k, j)).or_insert_with(|| base.clone())
+            }
+        };
         let req = Req::new(c, kv);
         log(format!("req {} key={} svc={}", c, req.key, i));
-        match poll_ready_once(&mut svc) {
+        match poll_ready_once(svc) {
             std::task::Poll::Ready(Ok(())) => {}
             _ => {
                 log(format!("result {} notready", c));
@@ -104,5 +191,22 @@ impl Mw for Adapter {
         let hit = log_len() == before; // the inner service logs `inner_call` from inside `call()`
         obs("hit", hit as u8);
         Some(held(fut, render))
+    }
+
+    fn probe(&mut self, what: &str, _kv: &Kv) {
+        if what != "events" {
+            return;
+        }
+        if self.listen {
+            let c = &self.counts;
+            log(format!(
+                "probe events hit={} miss={} evict={}",
+                c.hit.load(Ordering::SeqCst),
+                c.miss.load(Ordering::SeqCst),
+                c.evict.load(Ordering::SeqCst)
+            ));
+        } else {
+            log("probe events off".to_string());
+        }
     }
 }
